@@ -29,6 +29,25 @@ def tasks(ctx, quick):
             c.update(fluence=fl, exposure=ex, rests=[0], cd=0.0, fast_ratio=0.0)
             items.append({"id": "t%d" % len(items), "kind": "decay", "formula": f, "cond": c, "restlists": [[0], [1], [0, 24, 360]],
                           "targets": [1e-3, 0.01, 0.1, 0.5, 0.9]})
+    # one daughter reached from two targets whose rows give slightly different half-lives (Al-28 from Al and Si, ...)
+    for f in (["Al2SiO5", "KAlSi3O8", "Rb2SrCl4", "CoNi"] if quick else ["Al2SiO5", "KAlSi3O8", "Rb2SrCl4", "CoNi", "SiAl", "NiCo", "SrRb"]):
+        for fr in (10.0, 50.0):
+            c = conditions(rng)
+            c.update(fluence=rng.choice([1e8, 1e11]), exposure=rng.choice([0.1, 1.0]), rests=[0], cd=0.0, fast_ratio=fr)
+            items.append({"id": "t%d" % len(items), "kind": "decay", "formula": f, "cond": c, "restlists": [[0], [0.01]],
+                          "targets": [0.5, 0.1, 0.01, 1e-3]})
+    # a product that is tiny but still an ordinary double at the first rest time (A0 e^-700) is not lost
+    for f, rests in (("C2F4", [3.1, 24]), ("NaCl", [0.00563, 1]), ("Al2O3", [37.9, 100]), ("C2F4", [24, 3.08])):
+        c = conditions(rng)
+        c.update(fluence=1e8, exposure=1.0, rests=[0], cd=0.0, fast_ratio=0.0, mass=10.0)
+        items.append({"id": "t%d" % len(items), "kind": "decay", "formula": f, "cond": c, "restlists": [[0], rests],
+                      "targets": [0.5, 0.1, 0.9]})
+    # half-lives corrected by the owner of the table before the calculation
+    for f in ("Mn", "Co", "Al2O3", "NaCl"):
+        c = conditions(rng)
+        c.update(fluence=1e8, exposure=1.0, rests=[0])
+        items.append({"id": "t%d" % len(items), "kind": "decay", "formula": f, "cond": c, "restlists": [[0], [1]],
+                      "targets": [0.5, 0.1, 0.01], "edit_thalf": rng.choice([0.9, 1.05, 0.999])})
     return items
 
 
